@@ -89,6 +89,17 @@ CLAIMED = {
         'on the trace tie. Trusted: shim, snapshotting.',
    technique='Coq proof (structural) + interposed trace and snapshot comparison over generated configurations',
    ref='DESIGN 6 C05'),
+ 'C03': dict(
+   text='PARTIAL. Proved in Coq about the faithful model of expr.c/match.c (flat match list with sentinels, pattern entries, pending actions, pass/break markers, '
+        'matches_merge, neg clearing the list): every condition evaluates to its boolean formula whatever is short-circuited or pending; in any block of plain rules '
+        '(no pass/break/nesting) the first matching rule wins and exactly its actions are queued. The general statement (pass, break, nested blocks, on "clean" '
+        'evaluations) is stated but NOT proved: it is checked bounded-exhaustively and randomly against the documented semantics (spec_run) by the harness. '
+        'Known findings with witness lemmas: T1/T2 (pinned), T3=F-02, F-21 location merge. Tied by comparing the action list mdsort -d prints, in order, and the '
+        'final tree of a real run with the extracted evaluator on all 8 truth assignments per generated tree.',
+   note='The parser shape (left-nested OR chain, MATCH sentinel, AND chain of actions, and/or equal precedence left-associative, ! tighter) is modelled by hand '
+        '(compile) and tied only by correspondence. EXPR_ERROR propagation, attachment conditions/blocks and plain matchers are outside this check (C11/C13/C04).',
+   technique='Coq proof (structural induction over conditions and rule lists; list-append lemmas for matches_merge) + differential -d / real-run correspondence + spec monitor',
+   ref='DESIGN 6 C03'),
 }
 
 ALL = ['C%02d' % i for i in range(1, 19)]
